@@ -33,7 +33,7 @@ Open Scope string_scope.
 Open Scope list_scope.
 Open Scope N_scope.
 
-Inductive variant : Type := Cur | Fix.
+Inductive variant : Type := Cur | Fix | Fix2.
 
 (** [SMT_RESERVED_WORDS] of patches/0014 *)
 Definition smt_reserved_words : list string :=
@@ -78,7 +78,7 @@ Definition is_simple_id (s : string) : bool :=
   | _ =>
       match v with
       | Cur => id_chars_ok s true
-      | Fix => negb (str_in s smt_reserved_words) && id_chars_ok s true
+      | Fix | Fix2 => negb (str_in s smt_reserved_words) && id_chars_ok s true
       end
   end.
 
@@ -261,7 +261,7 @@ Definition ser_cmd (c : smt_cmd) : res sx :=
   | CSetLogic l => Ok (SxList [SxAtom "set-logic"; SxAtom (logic_str l)])
   | CSetOption k x => Ok (SxList [SxAtom "set-option"; SxAtom (String.append ":" k); SxAtom (escape_id x)])
   | CSetInfo k x =>
-      Ok (SxList [SxAtom (match v with Cur => "set-option" | Fix => "set-info" end);
+      Ok (SxList [SxAtom (match v with Cur => "set-option" | Fix | Fix2 => "set-info" end);
                   SxAtom (String.append ":" k); SxAtom (escape_id x)])
   | CAssert e => Ok (SxList [SxAtom "assert"; ser e false])
   | CDeclareConst s =>
